@@ -257,8 +257,8 @@ func ReplayAll(behs []Beh, env *core.Env, rep *core.Report, pause time.Duration,
 	}
 	// Every mismatch that is left is executed once more, ALONE and patiently (settle time 3 s, step
 	// deadline 30 s): while many replays share the machine - or the machine is loaded - a scheduler
-	// that is merely late can look wrong. Only what comes back then is reported (at most 8 are
-	// re-executed; if none of those comes back, nothing is reported).
+	// that is merely late can look wrong. Only what comes back then is reported (8 are re-executed,
+	// more - up to 40 - while none has come back; if none comes back, nothing is reported).
 	{
 		reexec, back := 0, 0
 		var pendingIdx []int
@@ -274,7 +274,9 @@ func ReplayAll(behs []Beh, env *core.Env, rep *core.Report, pause time.Duration,
 			}
 		}
 		for _, i := range pendingIdx {
-			if reexec >= 8 {
+			// (on a loaded machine the first ones may all be artefacts of the load: go on until one comes
+			// back, up to 40)
+			if (reexec >= 8 && back > 0) || reexec >= 40 {
 				break
 			}
 			reexec++
